@@ -1,11 +1,14 @@
 """C12 — a refused operation leaves the file exactly as it was (structural model, writer form)."""
 import contextlib
+import decimal
+import fractions
 import hashlib
 import inspect
 import io
 import os
 import random
 import time
+import uuid
 
 import h5py
 import numpy as np
@@ -823,7 +826,14 @@ def _build(f, long=False):
     da.polynom_coefficients = [0.0, 1.0, 2.0, 3.0] if long else [0.0, 1.0]
     b.create_data_array("da-extents", "t", data=[1.0])
     fsrc = b2.create_source("zz", "t")
-    return dict(fsrc=fsrc, f=f, b=b, b2=b2, da=da, d1=d1, ds=ds, dx=dx, da2=da2, df=df, df2=df2, t=t, mt=mt, g=g, src=src,
+    # a 2-d array without descriptors of its own choice: a set dimension linked to a frame column, a range dimension
+    # linked to an array (the states in which a refused re-link has something to lose)
+    dy = b.create_data_array("dy", "t", data=[[1.0, 2.0, 3.0], [4.0, 5.0, 6.0]])
+    sl = dy.append_set_dimension()
+    sl.link_data_frame(df, 1)
+    rl = dy.append_range_dimension()
+    rl.link_data_array(d1, [-1])
+    return dict(dy=dy, sl=sl, rl=rl, fsrc=fsrc, f=f, b=b, b2=b2, da=da, d1=d1, ds=ds, dx=dx, da2=da2, df=df, df2=df2, t=t, mt=mt, g=g, src=src,
                 src2=src2, s=s, s2=s2, pr=pr, ps=ps, pf=pf, ft=ft, sd=sd, rd=rd, sm=sm, long=long)
 
 
@@ -999,6 +1009,26 @@ def _catalogue():
         lambda c: c["s"].create_property("q1", [1]))
     add("create_property:object", lambda c: c["s"].create_property("q2", object()))
     add("create_property:empty", lambda c: c["s"].create_property("q3", []))
+    # well-formed arguments in an unusual spelling that passed the first check and were refused by a later one, after
+    # the first write (found by the respelling sweep; ff6f3c3, efa0db2, d2055a6): accepted or refused, never half done
+    add("create_property:name-numpy-str", lambda c: c["s"].create_property(np.str_("q4"), [1]))
+    add("Section.setitem:key-str-subclass", lambda c: c["s"].__setitem__(type("S", (str,), {})("q5"), [1]))
+    add("copy_section:name-numpy-str", lambda c: c["f"].copy_section(c["s2"], name=np.str_("cp1")))
+    add("create_data_array:copy-name-numpy-str",
+        lambda c: c["b2"].create_data_array(copy_from=c["d1"], name=np.str_("cp2"), keep_copy_id=False))
+    add("create_section:oid-uuid-object",
+        lambda c: c["f"].create_section("n14", "t", oid=uuid.UUID("4a6b1e0c-7d11-4c58-9f0e-3b5a2c1d0e9f")))
+    add("create_property:oid-0-d-array",
+        lambda c: c["s"].create_property("q6", [1], oid=np.array("4a6b1e0c-7d11-4c58-9f0e-3b5a2c1d0e9f")))
+    add("RangeDimension.link_data_array:index-fraction",
+        lambda c: c["rd"].link_data_array(c["d1"], [fractions.Fraction(-1)]),
+        lambda c: c["rd"].link_data_array(c["d1"], [-1]))
+    add("RangeDimension.link_data_array:index-decimal-on-linked",
+        lambda c: c["rl"].link_data_array(c["da"], [decimal.Decimal(0), decimal.Decimal(-1)]),
+        lambda c: c["rl"].link_data_array(c["da"], [0, -1]))
+    add("append_range_dimension_using_self:index-fraction",
+        lambda c: c["dx"].append_range_dimension_using_self([fractions.Fraction(-1)]),
+        lambda c: c["dx"].append_range_dimension_using_self([-1]))
     add("copy:name-taken", lambda c: c["b"].create_data_array(copy_from=c["da"]))
     add("copy:wrong-kind", lambda c: c["b"].create_data_array(copy_from=c["t"]))
     return C
@@ -1172,10 +1202,22 @@ def _time_limit(seconds):
         signal.signal(signal.SIGALRM, old)
 
 
+NOT_APPLICABLE = "n/a"
+
+
 def _sweep_call(scene, tlabel, slabel):
-    """(refused?, error text) of one call of the product on the scene; (None, ...) when the call did not return"""
+    """(refused?, error text) of one call of the product on the scene; (None, ...) when the call did not return;
+    (NOT_APPLICABLE, None) when the spelling is a respelling that does not exist for the target's valid value"""
     _, call, _ = SW.TARGET_INDEX[tlabel]
-    v = SW.SPELLING_INDEX[slabel][1](scene.c)
+    if slabel.startswith("re:"):
+        if tlabel not in SW.VALID:
+            return NOT_APPLICABLE, None
+        try:
+            v = SW.RS.respell(slabel, SW.VALID[tlabel](scene.c), scene.c)
+        except Exception:       # noqa   NotApplicable, or the value cannot be built in that spelling
+            return NOT_APPLICABLE, None
+    else:
+        v = SW.SPELLING_INDEX[slabel][1](scene.c)
     try:
         with _time_limit(8.0):
             _quiet(lambda: call(scene.c, v))
@@ -1209,7 +1251,7 @@ def sweep(ctx, plan, deadline=None):
     """plan: [(long, target label, [spelling labels])] (c12_sweep.plan); returns (failures, stats)"""
     failures = []
     stats = {"calls": 0, "refused": 0, "accepted": 0, "snapshots": 0, "replays": 0, "builds": 0, "targets": 0,
-             "cut_short": False, "timeouts": []}
+             "cut_short": False, "timeouts": [], "respelled": 0, "respelled_refused": 0}
     scenes = {False: _Scene(ctx, False, "sweep-short"), True: _Scene(ctx, True, "sweep-long")}
     try:
         for long, tlabel, spellings in plan:
@@ -1222,9 +1264,16 @@ def sweep(ctx, plan, deadline=None):
             before, bbytes = snapshot(scene.f), scene.bytes()
             history = []
             found = 0
+            # targets whose refusals come after a write that is rolled back change the file's bytes on every refusal:
+            # for them the snapshot is taken right after an accepted call (a replay on a fresh scene costs six times
+            # as much); the others learn it on the first such refusal
+            eager = SW.is_rollback(tlabel)
             for slabel in spellings:
                 refused, err = _sweep_call(scene, tlabel, slabel)
+                if refused == NOT_APPLICABLE:
+                    continue
                 stats["calls"] += 1
+                stats["respelled"] += slabel.startswith("re:")
                 if refused is None:
                     stats["timeouts"].append("%s <- %s" % (tlabel, slabel))
                     scene.build()
@@ -1233,12 +1282,14 @@ def sweep(ctx, plan, deadline=None):
                     continue
                 if refused:
                     stats["refused"] += 1
+                    stats["respelled_refused"] += slabel.startswith("re:")
                     # identical bytes of the flushed file: nothing was written (the common case); otherwise the
                     # strict snapshot decides (HDF5 may rewrite bytes without an observable change)
                     abytes = scene.bytes()
                     if abytes is not None and abytes == bbytes:
                         continue
                     stats["snapshots"] += 1
+                    eager = True
                     if before is None:
                         # no snapshot was taken after the last accepted call: decide on a fresh scene, by replay
                         stats["replays"] += 1
@@ -1271,7 +1322,7 @@ def sweep(ctx, plan, deadline=None):
                     if not _sweep_reset(scene, tlabel):
                         scene.build()
                         history = []
-                    before, bbytes = None, scene.bytes()
+                    before, bbytes = (snapshot(scene.f) if eager else None), scene.bytes()
     finally:
         stats["builds"] = sum(sc.builds for sc in scenes.values())
         for sc in scenes.values():
@@ -1282,18 +1333,18 @@ def sweep(ctx, plan, deadline=None):
 def _replay_sweep(ctx, inp):
     scene = _Scene(ctx, bool(inp.get("long")), tag="sweep-replay")
     tlabel, slabel = inp.get("target"), inp.get("spelling")
-    if tlabel not in SW.TARGET_INDEX or slabel not in SW.SPELLING_INDEX:
+    if tlabel not in SW.TARGET_INDEX or (slabel not in SW.SPELLING_INDEX and slabel not in SW.RS.RESPELL_INDEX):
         return None
     try:
         scene.build()
         for h in inp.get("accepted_before") or []:
-            if h in SW.SPELLING_INDEX:
+            if h in SW.SPELLING_INDEX or h in SW.RS.RESPELL_INDEX:
                 refused, _ = _sweep_call(scene, tlabel, h)
-                if refused is None or (not refused and not _sweep_reset(scene, tlabel)):
+                if refused is None or refused == NOT_APPLICABLE or (not refused and not _sweep_reset(scene, tlabel)):
                     return None
         before = snapshot(scene.f)
         refused, err = _sweep_call(scene, tlabel, slabel)
-        if not refused:
+        if refused is not True:
             return None
         after = snapshot(scene.f)
         if after == before:
